@@ -75,31 +75,39 @@ def run(prop, pcfg, cfg, results, seed):
     # ---- 3. seeded changes of this property
     killed, total, detail = 0, 0, []
     sdir = os.path.join(VERIF, "seeded")
+
+    def one(name):
+        patch = os.path.join(sdir, name, "patch.diff")
+        d = tempfile.mkdtemp(prefix="verif-selftest.")
+        try:
+            shutil.copytree(os.path.join(repo, "src"), os.path.join(d, "src"))
+            for f in ("Cargo.toml", "Cargo.lock"):
+                shutil.copy(os.path.join(repo, f), os.path.join(d, f))
+            p = subprocess.run(["patch", "-s", "-p1", "-i", patch], cwd=d, stdout=subprocess.PIPE, stderr=subprocess.STDOUT)
+            if p.returncode != 0:
+                return {"change": name, "result": "patch does not apply to the tree under check"}, None
+            env = dict(os.environ, VERIF_REPO=d, VERIF_OUT_DIR=os.path.join(d, "out"), VERIF_NO_SELFTEST="1", VERIF_TIER="quick")
+            env.pop("VERIF_DEEP", None)
+            q = subprocess.run([sys.executable, os.path.join(VERIF, "check"), prop, "--tier", "quick"], env=env,
+                               stdout=subprocess.PIPE, stderr=subprocess.STDOUT, timeout=3600)
+            text = q.stdout.decode(errors="replace")
+            obl = [ln.strip() for ln in text.split("\n") if "failed obligation:" in ln]
+            caught = q.returncode == 1 and "VIOLATION property=" + prop in text
+            return {"change": name, "result": "caught" if caught else f"NOT caught (exit {q.returncode})",
+                    "obligations": [o[:200] for o in obl[:3]]}, caught
+        finally:
+            shutil.rmtree(d, ignore_errors=True)
+
     if os.path.isdir(sdir) and not os.environ.get("VERIF_NO_SELFTEST"):
-        for name in sorted(os.listdir(sdir)):
-            patch = os.path.join(sdir, name, "patch.diff")
-            if not name.startswith(prop + "-") or not os.path.exists(patch):
-                continue
-            total += 1
-            d = tempfile.mkdtemp(prefix="verif-selftest.")
-            try:
-                shutil.copytree(os.path.join(repo, "src"), os.path.join(d, "src"))
-                for f in ("Cargo.toml", "Cargo.lock"):
-                    shutil.copy(os.path.join(repo, f), os.path.join(d, f))
-                p = subprocess.run(["patch", "-s", "-p1", "-i", patch], cwd=d, stdout=subprocess.PIPE, stderr=subprocess.STDOUT)
-                if p.returncode != 0:
-                    detail.append({"change": name, "result": "patch does not apply to the tree under check"})
+        names = [n for n in sorted(os.listdir(sdir)) if n.startswith(prop + "-") and os.path.exists(os.path.join(sdir, n, "patch.diff"))]
+        from concurrent.futures import ThreadPoolExecutor
+        with ThreadPoolExecutor(max_workers=3) as ex:
+            for rec, caught in ex.map(one, names):
+                if caught is None:
+                    detail.append(rec)
                     continue
-                env = dict(os.environ, VERIF_REPO=d, VERIF_OUT_DIR=os.path.join(d, "out"), VERIF_NO_SELFTEST="1", VERIF_TIER="quick")
-                q = subprocess.run([sys.executable, os.path.join(VERIF, "check"), prop, "--tier", "quick"], env=env,
-                                   stdout=subprocess.PIPE, stderr=subprocess.STDOUT, timeout=3600)
-                text = q.stdout.decode(errors="replace")
-                obl = [ln.strip() for ln in text.split("\n") if "failed obligation:" in ln]
-                caught = q.returncode == 1 and "VIOLATION property=" + prop in text
+                total += 1
                 killed += 1 if caught else 0
-                detail.append({"change": name, "result": "caught" if caught else f"NOT caught (exit {q.returncode})",
-                               "obligations": [o[:200] for o in obl[:3]]})
-            finally:
-                shutil.rmtree(d, ignore_errors=True)
+                detail.append(rec)
     info["mutants_total"], info["mutants_killed"], info["mutants"] = total, killed, detail
     return violations, undecided, info
